@@ -19,6 +19,25 @@ def is_container_guard(full):
                                      or "std::collections::BTreeMap<std::string::String, eval::value::SourcedValue" in full)
 
 
+def _only_called_from(prog, g, mod, depth=0):
+    """Every (transitive, depth <= 3) caller of g is in module `mod`; g is not
+    used as a function value."""
+    if depth > 3 or g.path in prog.addr_taken():
+        return False
+    cs = prog.callers_of(g.path)
+    if not cs:
+        return False
+    for c in cs:
+        h = c.fn.root_fn()
+        if h.path == g.path:
+            continue
+        if h.module.startswith(mod) and not h.generated:
+            continue
+        if not _only_called_from(prog, h, mod, depth + 1):
+            return False
+    return True
+
+
 def rule_R05_1(ctx):
     prog = ctx.prog
     r = RuleResult("R05.1", "only the binder module takes a mutable view of "
@@ -36,13 +55,19 @@ def rule_R05_1(ctx):
                      "std::sync::Arc::<T>::make_mut", "std::sync::Mutex::<T>::into_inner") \
                     and ("eval::value::SourcedValue" in full):
                 sites.append((f, c, d))
-    r.require_floor("mutable accesses to container contents", len(sites), 4)
+    r.require_floor("mutable accesses to container contents", len(sites), 2)
     import anchors
     bmod = anchors.binder_module(prog)
     r.inst("binder module (holds the RawExpr target table): %s" % bmod)
     for f, c, what in sites:
         r.inst("%s: %s" % (f.path, what))
         if f.module.startswith(bmod) and not f.generated:
+            r.ok()
+        elif _only_called_from(prog, f.root_fn(), bmod):
+            # a container helper that only the binder calls (`container::
+            # set_list_item` behind the binder's bounds test) writes on the
+            # binder's behalf
+            r.inst("%s: called only from the binder module" % f.path)
             r.ok()
         elif f.root_fn().path not in anchors.evaluation_reach(prog):
             # set-up code (registering builtins/type functions before the
